@@ -54,6 +54,7 @@ type gen struct {
 	// makes memory and log disagree, which Merge then turns into data loss)
 	noSMove bool
 	noSPop  bool
+	paged   bool
 	focus   map[string]string
 	images  int
 	seed0   int64
@@ -175,6 +176,16 @@ func (g *gen) kvReads(t *hx.Tx, b string, full bool) {
 			lim = len(kvKeys) + 1
 		}
 		t.PrefixSearchScan(b, []byte(p), reg, ms, bad, 0, lim)
+		if g.paged {
+			// C03: offset and limit over 0..n+1 (and ScanNoLimit)
+			for q := 0; q < 4; q++ {
+				p := pick(g.r, prefixes)
+				t.PrefixScan(b, []byte(p), g.r.Intn(len(kvKeys)+2), g.r.Intn(len(kvKeys)+3)-1)
+				reg := pick(g.r, regexes)
+				ms, bad := matchSet(p, reg)
+				t.PrefixSearchScan(b, []byte(p), reg, ms, bad, 0, g.r.Intn(len(kvKeys)+3)-1)
+			}
+		}
 	}
 }
 
@@ -953,6 +964,14 @@ func main() {
 			g.histKV()
 		case "fill":
 			g.histFill()
+		case "page": // C03: paged scans over a larger key universe (several B+ tree leaves)
+			if !g.paged {
+				g.paged = true
+				for i := 0; i < 14; i++ {
+					kvKeys = append(kvKeys, fmt.Sprintf("k1%c", 'a'+i), fmt.Sprintf("ab%c", 'e'+i))
+				}
+			}
+			g.histKV()
 		case "product", "productkv":
 			g.histProduct(c.Family == "productkv")
 		case "crash": // C10: every structure, process crash at every mutation point
